@@ -24,12 +24,25 @@ MIN_FUNCTIONS = 2
 ASSUMPTIONS = {
     "Value": "opaque stand-in for values::Value", "clone": "Clone returns an equal value",
     "none": "Value::none() is the Garden value None", "some": "Value::some(v) is the Garden value Some(v)",
+    "int": "Value::new(Value_::Int(i)) is the Garden integer i",
+    "vt_find_str": "str::find(&str) returns the byte offset of the first occurrence, None if there is none",
+    "vt_chars_count": "chars().count() is the number of characters",
+    "vt_chars_skip_take": "chars().skip(a).take(n).collect() is the characters with index in [a, a + n)",
+    "axiom_clen": "char::len_utf8 is between 1 and 4, and 1 for ASCII", "axiom_clen16": "char::len_utf16 is 1 or 2",
+    "axiom_len_bound": "a str is at most isize::MAX bytes long",
+    "vt_len": "str::len is the sum of the chars' UTF-8 lengths", "vt_slice": "&s[a..b]: panics unless both are char boundaries; the chars between them",
+    "vt_slice_from": "&s[a..] (unused here)", "vt_find_char": "str::find(char) (unused here)", "vt_rfind_char": "str::rfind(char) (unused here)",
+    "vt_utf16_count": "(unused here)", "vtc_len_utf8": "char::len_utf8", "vtc_len_utf16": "char::len_utf16", "vu_min": "usize::min",
+    "CharIndices": "std::str::CharIndices (unused here)", "vt_char_indices": "(unused here)", "next": "(unused here)",
+    "vc_clone": "Clone", "vs_string_eq_lit": "-", "vs_string_eq": "-", "vs_string_from_lit": "-",
     "vv_get_unwrap": "`items.get(i).unwrap()` on an rpds::Vector: panics unless i < len (an obligation); returns the element",
 }
-LEMMAS = {}
+LEMMAS = {k: {"C32"} for k in ("lemma_off_step", "lemma_off_zero", "lemma_off_mono", "lemma_off_inj", "lemma_cix", "lemma_cix_props",
+                                 "lemma_blen_concat", "lemma_off_sub", "lemma_u16_bounds", "lemma_u16_split")}
 UNVERIFIED = {"C32": [
     "the functions written in Garden in src/__prelude.gdn (split, split_once, replace, contains, trim*, strip_prefix/suffix, first, last, concat, map, filter, enumerate, range, sort_nums, min, max, List::index_of): there is no deductive verifier for Garden; they are compared with reference implementations on the corpus of the bounded stand-in only, and their termination is observed on that corpus only",
     "Rust built-ins that are a single std call (String::len = chars().count(), starts_with, ends_with, lines, List::len, List::append = push_back, List::contains via Value equality (C13)): std's behaviour is assumed",
+    "64-bit target (usize is 8 bytes)",
     "rpds::Vector is stood in for by Vec (len / get); `iter().skip(a).take(n)` yields the elements with index in [a, a + n) (std); the wrapping of the result into a Garden value and the argument type checks around the cores",
 ]}
 
@@ -58,6 +71,41 @@ pub fn vv_get_unwrap<'a>(v: &'a Vec<Value>, i: usize) -> (r: &'a Value)
 { unimplemented!() }
 """
 
+TEXT_GLUE = """
+global size_of usize == 8;   // ASSUMPTION: 64-bit target (a non-negative i64 cast to usize is exact)
+pub uninterp spec fn int_value(i: i64) -> Value;
+impl Value {
+    #[verifier::external_body]
+    pub fn int(i: i64) -> (r: Self) ensures r == int_value(i) { unimplemented!() }
+}
+/// `n` occurs in `s` at character index k
+pub open spec fn occurs_at(s: Seq<char>, k: int, n: Seq<char>) -> bool {
+    0 <= k && k + n.len() <= s.len() && s.subrange(k, k + n.len()) == n
+}
+pub open spec fn is_first_occ(s: Seq<char>, n: Seq<char>, k: int) -> bool {
+    occurs_at(s, k, n) && forall|j: int| 0 <= j < k ==> !#[trigger] occurs_at(s, j, n)
+}
+pub open spec fn no_occ(s: Seq<char>, n: Seq<char>) -> bool {
+    forall|j: int| !#[trigger] occurs_at(s, j, n)
+}
+/// `s.find(n)`: byte offset of the first occurrence of the string n, if any (ASSUMED std behaviour)
+#[verifier::external_body]
+pub fn vt_find_str(s: &str, n: &str) -> (r: Option<usize>)
+    ensures
+        r is Some ==> exists|k: int| #[trigger] is_first_occ(s@, n@, k) && off(s@, k) == r->Some_0,
+        r is None ==> no_occ(s@, n@),
+{ unimplemented!() }
+/// `s.chars().count()`
+#[verifier::external_body]
+pub fn vt_chars_count(s: &str) -> (r: usize) ensures r == s@.len() { unimplemented!() }
+/// `s.chars().skip(a).take(n).collect::<String>()`: the characters with index in [a, a + n) (ASSUMED std behaviour)
+#[verifier::external_body]
+pub fn vt_chars_skip_take(s: &str, a: usize, n: usize) -> (r: String)
+    ensures r@ == s@.subrange(if a <= s@.len() { a as int } else { s@.len() as int },
+                              if a + n <= s@.len() { a + n } else { s@.len() as int }),
+{ unimplemented!() }
+"""
+
 _CASES = reference.cases()
 _N = sum(len(v) for v in _CASES.values())
 WITNESSES = [
@@ -74,7 +122,10 @@ BOUNDED = [
 def build(tier):
     u = UnitFile("builtins")
     u.raw(common.HEADER)
+    u.raw(common.prelude("strings.rs"), kind="prelude")
+    u.raw(common.prelude("text.rs"), kind="prelude")
     u.raw(GLUE, kind="prelude")
+    u.raw(TEXT_GLUE, kind="prelude")
     c32 = {"C32"}
     LEN = "items@.len()"
     # List::get: Some(items[i]) for an index inside the list, None otherwise
@@ -97,6 +148,33 @@ def build(tier):
             ensures=[("in_range", "r.0 <= r.1 <= %s" % LEN),
                      ("exactly_the_indexes_from_i_to_j",
                       "forall|k: int| 0 <= k < %s ==> ((r.0 <= k < r.1) <==> #[trigger] slice_wants(k, i_arg as int, j_arg as int, %s as int))" % (LEN, LEN))],
+            ret="r", props=c32))
+    # String::index_of: the character index of the first occurrence of the needle, None if there is none
+    u.add_range_fn(
+        EV, "eval_built_in_method_call", "let mut value = Value::none();", "receiver_s.find(arg_s)",
+        sig="pub fn string_index_of_core(receiver_s: &str, arg_s: &str) -> (value: Value)",
+        suffix="\n    value",
+        rules=[rw.simple("R2", r"receiver_s\.find\(arg_s\)", "vt_find_str(receiver_s, arg_s)"),
+               rw.simple("R7", r"(\w+)\[\.\.(\w+)\]\.chars\(\)\.count\(\)", r"vt_chars_count(vt_slice(\1, 0, \2))"),
+               rw.simple("R2", r"Value::new\(Value_::Int\(([^()]*)\)\)", r"Value::int(\1)")],
+        contract=Contract(
+            requires=[("fits", "receiver_s@.len() <= i64::MAX")],
+            ensures=[("index_of_first_occurrence", "forall|k: int| #[trigger] is_first_occ(receiver_s@, arg_s@, k) ==> value == some_value(int_value(k as i64))"),
+                     ("none_if_it_does_not_occur", "no_occ(receiver_s@, arg_s@) ==> value == none_value()")],
+            hints=[dict(anchor="let i =", where="before", name="offset_is_a_boundary",
+                        text="let ghost k0 = choose|k: int| #[trigger] is_first_occ(receiver_s@, arg_s@, k) && off(receiver_s@, k) == needle_byte_offset;\n"
+                             "proof { lemma_cix(receiver_s@, k0); lemma_cix(receiver_s@, 0); lemma_off_zero(receiver_s@); lemma_off_mono(receiver_s@, k0, receiver_s@.len() as int);\n"
+                             "    assert forall|k: int| #[trigger] is_first_occ(receiver_s@, arg_s@, k) implies k == k0 by { if k < k0 { assert(occurs_at(receiver_s@, k, arg_s@)); } else if k0 < k { assert(occurs_at(receiver_s@, k0, arg_s@)); } } }")],
+            ret="value", props=c32))
+    # String::substring: the characters with index k, from <= k < to
+    u.add_range_fn(
+        EV, "eval_built_in_method_call", "env.push_value(Value::new(Value_::String(s_arg.chars()", ".take((to_arg - from_arg) as usize)",
+        sig="pub fn string_substring_core(s_arg: &str, from_arg: &i64, to_arg: &i64) -> (r: String)",
+        rules=[rw.simple("R7", r"env\.push_value\(Value::new\(Value_::String\(\s*s_arg\s*\.chars\(\)\s*\.skip\(([^()]*)\)\s*\.take\(((?:[^()]|\([^()]*\))*)\)\s*\.collect\(\),?\s*\)\)\)",
+                         r"return vt_chars_skip_take(s_arg, \1, \2)")],
+        contract=Contract(
+            requires=[("checked_before", "0 <= *from_arg <= *to_arg")],
+            ensures=[("characters_from_to", "r@ == s_arg@.subrange(if *from_arg <= s_arg@.len() { *from_arg as int } else { s_arg@.len() as int }, if *to_arg <= s_arg@.len() { *to_arg as int } else { s_arg@.len() as int })")],
             ret="r", props=c32))
     u.add_canary_proof()
     u.raw(common.FOOTER)
